@@ -7,6 +7,7 @@
 pub mod glm;
 pub mod isolate;
 pub mod logistic;
+pub mod mem;
 pub mod model;
 
 use model::{Binary, Lk, Multi, Objective, Tweedie};
